@@ -47,7 +47,19 @@ def parseWorldImpl? (s : String) : Option (List Nat × List Nat) :=
   | [a, b] => do pure (← natList? a.trimAscii.toString, ← natList? b.trimAscii.toString)
   | _ => none
 
-def step (st : NS) (op impl : String) : NS × StepOut :=
+/-- Driver state: the model state plus the pids the IMPLEMENTATION reported as ready
+(`is_elected = true`) since the last state-changing op. -/
+structure DS where
+  ns : NS
+  readyImpl : List Nat := []
+
+/-- oracle: among sessions the implementation reports ready at one instant, at most one
+per peer is server-side (accepting node keeps exactly one; `commit_leaves_elected_set`). -/
+def readyOk (st : NS) (ready : List Nat) : Bool :=
+  let rs := st.sessions.filter (fun s => ready.contains s.id && s.isServer)
+  rs.all (fun a => rs.all (fun b => a.id == b.id || a.peerName != b.peerName || a.peerName == some st.thisName))
+
+def stepNS (st : NS) (op impl : String) : NS × StepOut :=
   match words op with
   | ["elect", this, peer, cs] =>
     match parseCands? cs with
@@ -113,7 +125,17 @@ def step (st : NS) (op impl : String) : NS × StepOut :=
     (st, { model := showNats (sortNats ((st.sessions.filter (·.auth)).map (·.id))) })
   | _ => (st, { model := "bad-op" })
 
+def step (ds : DS) (op impl : String) : DS × StepOut :=
+  let (ns', out) := stepNS ds.ns op impl
+  match words op with
+  | ["elected", pid] =>
+    let ready := if impl == "true" then (pid.toNat?.map (· :: ds.readyImpl)).getD ds.readyImpl else ds.readyImpl
+    let orc := if readyOk ns' ready then [] else ["two-ready-sessions-for-one-peer-on-acceptor"]
+    ({ ns := ns', readyImpl := ready }, { out with oracle := out.oracle ++ orc })
+  | "visible" :: _ | "checkc" :: _ | "checks" :: _ | "elect" :: _ | "world" :: _ => ({ ds with ns := ns' }, out)
+  | _ => ({ ns := ns', readyImpl := [] }, out)
+
 def run (ops impl : Array String) : IO Tally :=
-  replay ({ thisName := "", sessions := [] } : NS) step ops impl
+  replay ({ ns := { thisName := "", sessions := [] } } : DS) step ops impl
 
 end Driver.C18
